@@ -14,7 +14,8 @@ EXTENDS SMGIso, SMGEmit
 
 CONSTANTS Fam,        \* family name
           SampleMod,  \* pairs with different invariants are sampled 1 in SampleMod
-          WithPairs   \* FALSE: only the family members and their mirror images
+          WithPairs,  \* FALSE: only the family members and their mirror images
+          WithLabels  \* TRUE: also the bijections under caller-supplied labels (C05)
 
 Bd(role) == [role |-> role, at |-> Emp]
 Mk(kind, el, bd) == [EmptyGraph(kind) EXCEPT !.el = el, !.aat = [a \in DOMAIN el |-> Emp], !.bd = bd]
@@ -227,6 +228,15 @@ Emit ==
                                  JKV("spec", JBool(FullySpecified(g) /\ FullySpecified(h))),
                                  JKV("respell", JBool(\E f \in S : IsRespelling(g, h, f))),
                                  JKV("sigeq", JBool(Sig(g) = Sig(h))),
+                                 \* caller-supplied labels replace the elements: parity of the identifier, and one label for all
+                                 JKV("lab2", IF WithLabels /\ ~HasRoles(g.kind)
+                                               THEN JSetArr({ MapJ2(g, f) : f \in IsosL(g, h, [a \in Atoms(g) |-> a % 2], [a \in Atoms(h) |-> a % 2],
+                                                                                      FALSE, HasStereo(g.kind), FALSE) })
+                                               ELSE "null"),
+                                 JKV("lab1", IF WithLabels /\ ~HasRoles(g.kind)
+                                               THEN JSetArr({ MapJ2(g, f) : f \in IsosL(g, h, [a \in Atoms(g) |-> 7], [a \in Atoms(h) |-> 7],
+                                                                                      FALSE, HasStereo(g.kind), FALSE) })
+                                               ELSE "null"),
                                  JKV("su", JBool(SingleUnitPair(g, h, S))),
                                  JKV("sigr", JBool(Sig(Reactant(g, FALSE)) = Sig(Reactant(h, FALSE)))),
                                  JKV("sigp", JBool(Sig(Product(g, FALSE)) = Sig(Product(h, FALSE)))),
